@@ -186,6 +186,7 @@ type procResult struct {
 	timedOut       bool
 	quitStack      string // goroutine dump obtained with SIGQUIT when the watchdog fired
 	wall           time.Duration
+	cpu            time.Duration // user+system time of the process
 }
 
 // runWallet runs the wallet in dir. On watchdog expiry the process gets SIGQUIT first (Go prints
@@ -220,6 +221,9 @@ func runWallet(bin, dir string, args []string, watchdog time.Duration) procResul
 	r := procResult{stdout: so.String(), stderr: se.String(), timedOut: timedOut, wall: time.Since(t0)}
 	if timedOut {
 		r.quitStack = r.stderr
+	}
+	if cmd.ProcessState != nil {
+		r.cpu = cmd.ProcessState.UserTime() + cmd.ProcessState.SystemTime()
 	}
 	if err != nil {
 		if ee, ok := err.(*exec.ExitError); ok {
